@@ -615,7 +615,7 @@ class Helpers(Family):
 class PlainLU(Family):
     name = "lu"
     imports = ("Model.LinAlg", "Run.LinAlgH")
-    count = {"quick": 150, "thorough": 2000}
+    count = {"quick": 180, "thorough": 2000}
     has_oracle = True
     WANTS = ["plain", "sdd", "colloc", "plain", "sdd", "colloc", "zero", "singular", "noswap", "malformed"]
 
@@ -848,7 +848,7 @@ def op_oracle(op, o, label=""):
 class Sequences(Family):
     name = "seq"
     imports = ("Model.LinAlg", "Run.LinAlgH")
-    count = {"quick": 170, "thorough": 2500}
+    count = {"quick": 210, "thorough": 2500}
     has_oracle = True
     timeout = 60
 
